@@ -19,6 +19,9 @@ NOT_DECIDED = [
 
 
 def run(ctx):
+    from ..rules import round5 as _R5
+    _R5.rule_init_chain(ctx)
+    _R5.rule_identity_hash(ctx)
     tl.rule_F2a(ctx)
     tl.rule_F2b(ctx)
     tl.rule_F2c_F2d(ctx)
